@@ -24,3 +24,50 @@ contract(MZ + '.current_address.setter', props=['C05'],
          raises={'ValueError': 'value < self._start or value > self._end + 1'},
          ensures=['self._current_address == value', 'zone_ok(self)'],
          modifies=['self._current_address'])
+
+# ---- the zone manager: every zone it holds lies inside GLOBAL; names are unique ---------------------------------------
+MGR = 'bespokeasm.assembler.memory_zone.manager:MemoryZoneManager'
+
+
+@spec
+def inside_global(mgr, z):
+    return (mapping(mgr._zones)['GLOBAL']._start <= z._start and z._end <= mapping(mgr._zones)['GLOBAL']._end)
+
+
+@spec
+def zones_wf(mgr):
+    """the manager's invariant: GLOBAL exists and every zone is a well-formed zone inside it"""
+    return ('GLOBAL' in mgr._zones
+            and forall(lambda n: implies(n in mgr._zones, zone_ok(mapping(mgr._zones)[n])
+                                         and inside_global(mgr, mapping(mgr._zones)[n])), types={'n': 'str'}))
+
+
+contract(MGR + '.global_zone', props=['C05'], requires=['"GLOBAL" in self._zones'],
+         ensures=['result is mapping(self._zones)["GLOBAL"]'], modifies=[])
+
+contract(MGR + '.create_zone', props=['C05'],
+         requires=['zones_wf(self)', 'address_bits >= 0'],
+         # a zone declared in source is rejected if its name is taken, if it is not contained in GLOBAL, if it is inverted
+         # or exceeds the address width
+         raises={'KeyError': 'name in self._zones',
+                 'ValueError': 'not (name in self._zones) and (start < mapping(self._zones)["GLOBAL"]._start'
+                               ' or end > mapping(self._zones)["GLOBAL"]._end or end > 2**address_bits - 1 or start > end)'},
+         ensures=['name in self._zones', 'mapping(self._zones)[name] is result', 'result._start == start',
+                  'result._end == end', 'result._current_address == start', 'zones_wf(self)',
+                  'forall(lambda n: implies(n != name, (n in self._zones) == old(n in self._zones)), types={"n": "str"})',
+                  'forall(lambda n: implies(n != name and (n in self._zones), mapping(self._zones)[n] is'
+                  ' old(mapping(self._zones))[n]), types={"n": "str"})'],
+         modifies=['self._zones[*]'], allocates=True)
+
+# the containment check of predefined zones when the manager is set up (the loop added by fix 83cb0b1)
+contract(MGR + '.__init__', props=['C05'], blocks_only=True,
+         params={'predefined_zones': 'cfg'},
+         blocks={'predefined-inside-global': dict(
+             where='loop[0]', locals={},
+             requires=['"GLOBAL" in self._zones'],
+             may_raise={'SystemExit': 'True'},
+             ensures=['forall(lambda n: implies(n in self._zones, inside_global(self, mapping(self._zones)[n])),'
+                      ' types={"n": "str"})'],
+             modifies=[])},
+         loops={'0': dict(idx='i', seq='order', inv=[
+             'forall(lambda j: implies(0 <= j and j < i, inside_global(self, elems(order)[j])))'])})
